@@ -845,6 +845,7 @@ def main(argv):
     scenarios = plan(tier, seed)
     for lay in sorted({sc['layout'] for sc in scenarios}):
         build_layout(lay)                               # placement search once, in the parent
+    preload()                                           # force fields and mappings parsed once, inherited by the forked workers
     scratch = tempfile.mkdtemp(prefix='c15cli_')
     ncpu = min(16, os.cpu_count() or 1)
     nshares = ncpu if tier == 'quick' else ncpu * 3
